@@ -931,8 +931,8 @@ def gen_engine_specs(ctx) -> list:
         jobs.append(("all", spec, 5000, 0, "engine:" + "-vs-".join(k for k, _ in pr)))
     spec = {"tasks": tasks, "status0": run_,
             "workers": [engine_worker("signal", tasks, 111), engine_worker("cancel", tasks), engine_worker("signal", tasks, 222)]}
-    jobs.append(("split", spec, 100000, 0, "engine:signal-cancel-signal-all") if thorough
-                else ("random", spec, 90, rng.randrange(1 << 30), "engine:signal-cancel-signal"))
+    # (all interleavings of these three 4-attempt handlers are ~160 000 runs: sampled instead)
+    jobs.append(("random", spec, 900 if thorough else 90, rng.randrange(1 << 30), "engine:signal-cancel-signal"))
     # pairs whose writes depend on what they read (conditional handlers): checked against serial execution of the
     # same real handlers instead of an Occ program
     def mo(kind, **kw):
@@ -1023,7 +1023,7 @@ def gen_specs(ctx) -> list[tuple[str, dict, int, int, str]]:
             {"variant": v[0], "phase": v[1], "mod": _mod(rng, i, base_tasks, True), "tries": 1} for i, v in enumerate(tr)]}
         jobs.append(("split", spec, 100000, 0, "three-1try-all"))
     if thorough:
-        for tr in triples[:2]:
+        for tr in triples[:1]:
             spec = {"tasks": base_tasks, "status0": 1, "workers": [
                 {"variant": v[0], "phase": v[1], "mod": _mod(rng, i, base_tasks, True), "tries": 2} for i, v in enumerate(tr)]}
             jobs.append(("split", spec, 100000, 0, "three-2tries-all"))
